@@ -31,7 +31,7 @@ RULE = ("Random grids of 2-12 daily/irregular timesteps of which ~85% carry an e
         "expanding. Non-trivial = fold strictly inside the grid with >= 2 valid starts or a refusal.")
 ASSUMPTIONS = ["the episode_length argument of reset() ('number of states') is not judged; the configured length is",
                "sampling_span cases only check membership, not reachability"]
-REQUIRED_CATS = ["episode-length-with-fit-transformers", "decision-refused-then-resubmitted", "timesteps-re-added-after-environment-built", "latent-only-timestep", "events-added-then-rebuilt", "steps_delay:1", "steps_delay:2", "one-off-length-then-configured"]
+REQUIRED_CATS = ["sub-second-grid", "episode-length-with-fit-transformers", "decision-refused-then-resubmitted", "timesteps-re-added-after-environment-built", "latent-only-timestep", "events-added-then-rebuilt", "steps_delay:1", "steps_delay:2", "one-off-length-then-configured"]
 REQUIRED = ["C15:decisions-exact", "C15:start-valid", "C15:visits-contiguous", "C15:every-start-reachable", "C15:refused-when-none-fits",
             "C15:whole-fold", "C15:walk-forward"]
 TECHNIQUE = "runtime monitoring: visited timesteps (observer clock per call) compared with the fold's event-bearing steps; seeded reachability sweep"
@@ -111,9 +111,14 @@ def case(ctx, i, tier):
             grid.append(grid[-1] + timedelta(seconds=rng.choice([3600, 86400, 3 * 86400])))
     else:
         grid = [t0 + timedelta(days=k) for k in range(n)]
+    subsecond = rng.random() < 0.2
+    if subsecond:
+        # a tick grid finer than a second: fold boundaries share their calendar second with timesteps on the other side
+        grid = [t0 + timedelta(milliseconds=250 * k) for k in range(n)]
+        ctx.cat("sub-second-grid")
     bearing = [g for g in grid if rng.random() < 0.85] or [grid[0]]
     evs = [EventNBBO(g, ETF("A"), 10, 10) for g in bearing]
-    L = rng.choice([0, 0, 0, 5])
+    L = rng.choice([0, 0, 0, 5]) if not subsecond else 0
     if L:
         # with a latency, a timestep may bear nothing but events stamped within the latency after the PREVIOUS
         # grid point (intraday ticks): it is event-bearing all the same and keeps its place in the order
